@@ -41,6 +41,19 @@ ITEMS = [
     ("keyable_forge", "C14", "implementing Keyable for a foreign type",
      "    struct My;\n    unsafe impl Keyable for My {}", "    struct My;",
      "keyable_sealed", ["E0277", "E0603"], None),
+    ("keyable_via_borrowmut", "C14", "forging a copyable key-like type through a std trait (BorrowMut<ThreadKey>)",
+     "    #[derive(Clone, Copy)] struct Forged;\n"
+     "    impl std::borrow::Borrow<ThreadKey> for Forged { fn borrow(&self) -> &ThreadKey { unreachable!() } }\n"
+     "    impl std::borrow::BorrowMut<ThreadKey> for Forged { fn borrow_mut(&mut self) -> &mut ThreadKey { unreachable!() } }\n"
+     + M + "    m.scoped_lock(Forged, |_| ());",
+     "    #[derive(Clone, Copy)] struct Forged;\n"
+     "    impl std::borrow::Borrow<ThreadKey> for Forged { fn borrow(&self) -> &ThreadKey { unreachable!() } }\n"
+     "    impl std::borrow::BorrowMut<ThreadKey> for Forged { fn borrow_mut(&mut self) -> &mut ThreadKey { unreachable!() } }\n"
+     + KEY + M + "    m.scoped_lock(&mut key, |_| ());",
+     'str_list_eqb keyable_impls ["&mut ThreadKey"; "ThreadKey"]', ["E0277"], None),
+    ("keyable_box", "C14", "a boxed key used as a Keyable", KEY + M + "    m.scoped_lock(Box::new(key), |_| ());",
+     KEY + M + "    m.scoped_lock(key, |_| ());",
+     'str_list_eqb keyable_impls ["&mut ThreadKey"; "ThreadKey"]', ["E0277"], None),
     ("lock_with_shared_key", "C14", "scoped lock with &ThreadKey", KEY + M + "    m.scoped_lock(&key, |_| ());",
      KEY + M + "    m.scoped_lock(&mut key, |_| ());",
      'negb (str_in "&ThreadKey" keyable_impls)', ["E0277"], None),
@@ -154,6 +167,32 @@ ITEMS = [
     ("refcoll_new_with_refs", "C07", "RefLockCollection::new given a container of references",
      M + "    let a = [&m, &m];\n    let c = RefLockCollection::new(&a);", M + "    let a = [&m, &m];\n    let c = RefLockCollection::try_new(&a);\n    assert!(c.is_none());",
      "e3", ["E0277"], None),
+    ("owned_new_vec_refs", "C07", "OwnedLockCollection given a Vec of references",
+     M + "    let c = OwnedLockCollection::new(vec![&m, &m]);", M + "    let c = OwnedLockCollection::new(vec![Mutex::new(1), Mutex::new(2)]);",
+     'negb (ol (TTuple [TRef (TCon "Mutex" (TPay true true)); TRef (TCon "Mutex" (TPay true true))]))', ["E0277"], None),
+    ("owned_new_boxed_slice_refs", "C07", "OwnedLockCollection given a boxed slice of references",
+     M + "    let c = OwnedLockCollection::new(vec![&m, &m].into_boxed_slice());",
+     M + "    let c = OwnedLockCollection::new(vec![Mutex::new(1), Mutex::new(2)].into_boxed_slice());",
+     'negb (ol (TTuple [TRef (TCon "Mutex" (TPay true true)); TRef (TCon "Mutex" (TPay true true))]))', ["E0277"], None),
+    ("boxed_new_boxed_slice_refs", "C07", "LockCollection::new given a boxed slice of references",
+     M + "    let c = LockCollection::new(vec![&m, &m].into_boxed_slice());",
+     M + "    let c = LockCollection::try_new(vec![&m, &m].into_boxed_slice());\n    assert!(c.is_none());",
+     'negb (ol (TTuple [TRef (TCon "Mutex" (TPay true true)); TRef (TCon "Mutex" (TPay true true))]))', ["E0277"], None),
+    ("retry_new_array_refs", "C07", "RetryingLockCollection::new given an array of references",
+     M + "    let c = RetryingLockCollection::new([&m, &m]);", M + "    let c = RetryingLockCollection::new([Mutex::new(1), Mutex::new(2)]);",
+     'negb (ol (TTuple [TRef (TCon "Mutex" (TPay true true)); TRef (TCon "Mutex" (TPay true true))]))', ["E0277"], None),
+    ("owned_new_mutref_of_refs", "C07", "OwnedLockCollection given &mut of a tuple of references",
+     M + "    let mut t = (&m, &m);\n    let c = OwnedLockCollection::new(&mut t);",
+     "    let mut t = (Mutex::new(1), Mutex::new(2));\n    let c = OwnedLockCollection::new(&mut t);",
+     'negb (ol (TMutRef (TTuple [TRef (TCon "Mutex" (TPay true true)); TRef (TCon "Mutex" (TPay true true))])))', ["E0277"], None),
+    ("owned_new_nested_ref_collection", "C07", "OwnedLockCollection given a RefLockCollection (which only borrows its locks)",
+     M + "    let t = (m, m2);\n    let r = RefLockCollection::new(&t);\n    let c = OwnedLockCollection::new((r,));",
+     M + "    let t = (m, m2);\n    let r = LockCollection::new(t);\n    let c = OwnedLockCollection::new((r,));",
+     'negb (ol (TTuple [TCon "RefLockCollection" (TTuple [TCon "Mutex" (TPay true true)])]))', ["E0277"], None),
+    ("owned_new_poisonable_ref", "C07", "OwnedLockCollection given a Poisonable around a reference",
+     M + "    let c = OwnedLockCollection::new((happylock::poisonable::Poisonable::new(&m), happylock::poisonable::Poisonable::new(&m)));",
+     M + "    let c = OwnedLockCollection::new((happylock::poisonable::Poisonable::new(m), happylock::poisonable::Poisonable::new(m2)));",
+     'negb (ol (TTuple [TCon "Poisonable" (TRef (TCon "Mutex" (TPay true true)))]))', ["E0277"], None),
 ]
 
 # ---------------------------------------------------------------- Send / Sync grid, evaluated by one program
